@@ -177,6 +177,129 @@ def hs_case(rng, mode):
         if not c[0].endswith("name:-"):
             return c
 
+# ---- long names (buffer-size boundaries: 64 = ub-common-name, 128, 255/256 = DNS / SNI limits)
+LONG_LENS = [63, 64, 64, 64, 65, 66, 127, 128, 129, 130, 255, 256]
+LCH = [b"a", b"b", b"c", b"B", b"0", b"1", b"-"]
+
+
+def long_host(rng, L):
+    """a DNS-shaped string of exactly L bytes (one long label, or labels of 1..k bytes)"""
+    if rng.chance(1, 4):
+        return b"".join(rng.choice(LCH) for _ in range(L))
+    k = rng.choice([3, 8, 20, 63])
+    out = b""
+    while len(out) < L:
+        out += b"".join(rng.choice(LCH) for _ in range(1 + rng.below(k))) + b"."
+    out = out[:L]
+    if out.endswith(b"."):
+        out = out[:-1] + b"a"
+    return out
+
+
+def long_pair(rng):
+    """(certificate name, requested name) around a length boundary"""
+    L = rng.choice(LONG_LENS)
+    host = long_host(rng, L)
+    v = rng.below(12)
+    if v == 0:
+        return host, host
+    if v == 1:
+        return host + b"x", host
+    if v == 2:
+        return host, host + b"x"
+    if v == 3:
+        return host[:-1], host
+    if v == 4:                                  # the name is a proper prefix of the certificate name
+        return host + rng.choice([b".evil", b".attacker.example", b".a", b"."]), host
+    if v == 5:
+        return swapcase(host), host
+    if v == 6:                                  # genuine wildcard, certificate name of length L
+        cert = b"*." + long_host(rng, max(3, L - 2))
+        if b"." not in cert[2:]:
+            cert = cert[:-2] + b".a" if len(cert) > 5 else cert + b".a"
+        return cert, rng.choice([b"h", b"host-1", b"B"]) + cert[1:]
+    if v == 7:                                  # wildcard whose suffix is cut at a boundary
+        cert = b"*." + long_host(rng, L + 1 + rng.below(40))
+        cut = rng.choice([63, 64, 65, 127, 128, 129, 255, 256])
+        return cert, b"h" + cert[1:cut]
+    if v == 8:                                  # NUL after a boundary
+        cut = rng.choice([63, 64, 65, 128])
+        return host[:cut] + b"\0" + host[cut:], host[:cut]
+    if v == 9:                                  # name = certificate name cut at a boundary
+        cert = long_host(rng, L + 1 + rng.below(30))
+        return cert, cert[:rng.choice([63, 64, 65, 127, 128, 129])]
+    if v == 10:                                 # long certificate name, short unrelated request
+        return host, rand_name(rng)
+    return rand_certname(rng, host), host       # long request, derived certificate name
+
+
+def long_case(rng, op="cert", mode="g", maxname=None):
+    while True:
+        cert, name = long_pair(rng)
+        if maxname is None or 0 < len(name) <= maxname:
+            break
+    words = [op, mode]
+    place = rng.below(6)
+    if place in (0, 1):
+        words.append("cn:" + vf.hexs(cert))
+    elif place in (2, 3):
+        words.append("san-dns:" + vf.hexs(cert))
+    elif place == 4:                            # SAN present but not matching, CN decides
+        words.append("san-dns:" + vf.hexs(rng.choice([b"other.example", b"*.other.example", name[:-1] or b"x"])))
+        words.append("cn:" + vf.hexs(cert))
+    else:
+        words.append("san-dns:" + vf.hexs(rand_certname(rng, name)))
+        words.append("san-dns:" + vf.hexs(cert))
+        if rng.chance(1, 2):
+            words.append("cn:" + vf.hexs(rand_certname(rng, name)))
+    words.append("name:" + vf.hexs(name))
+    return [" ".join(words)]
+
+
+# ---- one client context used for several connects
+def entry_names(line):
+    out = []
+    for w in line.split()[2:-1]:
+        k, h = w.split(":")
+        if k in ("san-dns", "cn") and h != "-":
+            out.append(bytes.fromhex(h))
+    return out
+
+
+def seq_case(rng, mode):
+    """first attempt (connect that fails half-way, or a complete handshake) for name A, then -
+    with or without tls_reset - a handshake for a different name B on the SAME client context;
+    A is chosen so that the certificate of the second attempt covers exactly one of A, B often."""
+    second = hs_case(rng, mode) if rng.chance(3, 4) else long_case(rng, "hs", mode, maxname=200)
+    second = ["chs " + second[0][3:]]
+    h = second[0].split()[-1][5:]
+    b_name = b"" if h == "-" else bytes.fromhex(h)
+    cands = []
+    for n in entry_names(second[0]):
+        if n.startswith(b"*."):
+            n = b"h" + n[1:]
+        if n and b"\0" not in n and len(n) <= 200 and n.lower() != b_name.lower():
+            cands.append(n)
+    r = rng.below(10)
+    if cands and r < 5:
+        a = rng.choice(cands)
+    elif r < 8:
+        a = rng.choice([b"other.example.org", b"a", b"B.c", b"1.2.3.4", b"::1"])
+    else:
+        a = rand_name(rng) or b"x"
+    if a.lower() == b_name.lower():
+        a = b"other.example.org"
+    if rng.chance(1, 2):
+        first = ["cfail %s name:%s" % (mode, vf.hexs(a))]
+    else:
+        ents = second[0].split()[2:-1] if rng.chance(2, 3) else ["san-dns:" + vf.hexs(a)]
+        first = [" ".join(["chs", mode] + ents + ["name:" + vf.hexs(a)])]
+    mid = ["creset"] if rng.chance(1, 4) else []
+    case = first + mid + second
+    if rng.chance(1, 5):                        # a third attempt, for the first name again
+        case += [" ".join(["chs", mode] + second[0].split()[2:-1] + ["name:" + vf.hexs(a)])]
+    return case
+
 
 def pton_cases(rng, mode, n):
     out = [["pton %s %s" % (mode, vf.hexs(s))] for s in IP_LITS]
@@ -357,7 +480,11 @@ def run(ck):
     ck.cov["rule"] = ("case = one certificate (0-3 SAN entries dNSName, iPAddress, rfc822Name; "
                       "0-2 CNs) + requested name, names derived from each other (equal, case-swapped, wildcard of "
                       "the domain, one label short, partial-label wildcard, NUL inserted, ' ', trailing dot) over "
-                      "{a,B,c,*,.,-,0,1,:,NUL,' '} to length 14 and IPv4/IPv6 literals in many spellings; plus the "
+                      "{a,B,c,*,.,-,0,1,:,NUL,' '} to length 14 and IPv4/IPv6 literals in many spellings; every 5th case "
+                      "uses long names at the boundaries 63..66, 127..130, 255/256 (exact, one byte longer/shorter, "
+                      "proper-prefix + '.evil', wildcard cut at the boundary, NUL after the boundary); handshake "
+                      "cases also as sequences on ONE client context (failed connect or full handshake for name A, "
+                      "optional tls_reset, handshake for name B); plus the "
                       "exhaustive set of (cert string, name) pairs over {a,b,*,.,-} (range-hash, as dNSName and as "
                       "CN); every case is run in mode g (platform inet_pton) and mode c (usual/socket_pton.c); "
                       "distinct_nontrivial = distinct op lines whose certificate carries at least one name (the pairs of "
@@ -391,7 +518,7 @@ def run(ck):
     n = ck.scale(40000, 1200000)
     if not ck.proof_ok:
         n *= 4
-    cases_g = [rand_case(rng, "cert", "g") for _ in range(n)]
+    cases_g = [rand_case(rng, "cert", "g") if i % 5 else long_case(rng, "cert", "g") for i in range(n)]
     cases_c = [[c[0].replace("cert g ", "cert c ", 1)] for c in cases_g[: n // 2]]
     nfail += par_compare(ck, hs["g"], dcmd, cases_g, "random-g", nontrivial=nontrivial)
     nfail += par_compare(ck, hs["c"], dcmd, cases_c, "random-c", nontrivial=nontrivial)
@@ -416,10 +543,15 @@ def run(ck):
     mark("exhaustive")
     # end-to-end: real handshake over a socketpair (self-signed, verify_cert off, verify_name on)
     nh = ck.scale(300, 2000)
-    hcases = [hs_case(rng, plat) for _ in range(nh)]
+    hcases = [hs_case(rng, plat) if i % 4 else long_case(rng, "hs", plat, maxname=255) for i in range(nh)]
     nfail += par_compare(ck, hs[plat], dcmd, hcases, "handshake", nontrivial=nontrivial, chunk=50, workers=12)
     ck.sample(hcases[0][0])
     mark("handshake")
+    # one client context, several connects: each handshake judges the name of ITS connect call
+    scases = [seq_case(rng, plat) for _ in range(ck.scale(150, 1000))]
+    nfail += par_compare(ck, hs[plat], dcmd, scases, "context-reuse", chunk=25, workers=12)
+    ck.sample(" ; ".join(scases[0]))
+    mark("context-reuse")
     ck.cov["traces_validated_against_impl"] = ck.cov["evaluations"]
     ck.cov["exhaustive"] = False
     if not ck.quick():
